@@ -209,6 +209,13 @@ def C03(ctx):
                      "the multi-writer shapes and re-confirms the listed witnesses")
     memory_model(ctx, ("sound", "trace"), avoid=(families.q_mo,))
     exhaustive_part(ctx, families.exhaustive_atomics(), ("sound", "trace"), label="exh_atomics")
+    # more stores than the tracked history: soundness only
+    lh = [dsl.normalize(p) for p in families.long_history_shapes()]
+    lo, up = core.lower_upper(ctx, lh, families.has_sc_access)
+    rs = core.run_loom(ctx, lh, cfg_of=lambda p: {"iter_cap": iter_cap(ctx.tier), "trace_cap": 0}, tag="longhist")
+    for p, l_, u_, r in zip(lh, lo, up, rs):
+        core.compare_sandwich(ctx, p, l_, u_, r, want=("sound", "fails"))
+    ctx.cov["programs"] += len(lh)
 
 
 def sync_family(ctx, progs, want=("complete", "sound", "fails", "trace"), tcap=None, waive=True):
@@ -789,7 +796,11 @@ def C19(ctx):
         ctx.violation("path-rejected", items[m["item"]]["prog"], info, {})
     # ---------------- (b) limits
     lim_items, lim_meta, grid = [], [], set()
-    for bi, (p, u) in enumerate(base):
+    # ... also for programs in which the limit strikes while the closure being spawned / a frame / a guard owns loom objects
+    lcp = families.limit_crash_programs()
+    LCU = core.run_loom(ctx, lcp, cfg_of=lambda p: {"iter_cap": 100000, "want_paths": True, "path_cap": 100000}, tag="unres_lim")
+    lbase = base + [(p, u) for p, u in zip(lcp, LCU) if u["end"] == "ok"]
+    for bi, (p, u) in enumerate(lbase):
         N = u["iters"]
         L = max(len(pathcheck.canon_path(pth)["br"]) for (ph, it, pth) in u["hook_events"] if ph == "end")
         for mb in (L - 1, L, L + 2):
@@ -818,7 +829,7 @@ def C19(ctx):
     exp = checkloop_expected(ctx, grid) if grid else {}
     LR = loomrun.run_items(os.path.join(ctx.work, "limits"), lim_items, jobs=ctx.jobs, tag="limits")
     for (bi, kind, val, ref), r in zip(lim_meta, LR):
-        p, u = base[bi]
+        p, u = lbase[bi]
         if kind == "max_branches":
             if val < ref:
                 if r["end"] != "branches":
@@ -972,6 +983,11 @@ def probe_program():
     return dsl.normalize(families.wrap([[dsl.st("y", 1), dsl.st("x", 1, "rel")], [dsl.ld("x", "acq"), dsl.ld("y")]], ["x"], name="probe-MP"))
 
 
+def pathcheck_len(path_json):
+    import pathcheck
+    return pathcheck.canon_path(path_json)["br"]
+
+
 def C06(ctx):
     import loomrun
     ctx.assumptions += ["crash points: a `panic` instruction at every instruction index of every thread of the base programs, "
@@ -1000,6 +1016,26 @@ def C06(ctx):
         if r["end"] != solo["end"] or r["iters"] != solo["iters"] or r["outcomes"] != solo["outcomes"] or \
                 r["hook_events"] != solo["hook_events"] or r["seq"] != solo["seq"]:
             ctx.violation("later-run-not-clean", probe, {"shard": k, "end": r["end"], "iters": r["iters"], "solo_iters": solo["iters"]}, {"msg": r["msg"]})
+    # a limit violation is a failure like any other: it must unwind, whatever the spawning closure / the frames own
+    lim = families.limit_crash_programs()
+    LU = loomrun.run_items(os.path.join(ctx.work, "lim_u"), [{"prog": p, "cfg": {"want_paths": True}} for p in lim], jobs=jobs, tag="lim_u")
+    litems, lmeta = [], []
+    for p, u in zip(lim, LU):
+        if u["end"] != "ok":
+            ctx.violation("unexpected-panic", p, u["end"], {"msg": u["msg"]})
+            continue
+        L_ = max(len(pathcheck_len(pth)) for (ph, it, pth) in u["hook_events"] if ph == "end")
+        n = len(p["threads"])
+        for cfg in ([{"max_threads": k} for k in range(1, n)] + [{"max_branches": b} for b in sorted({1, 2, 3, max(1, L_ // 2), L_ - 1}) if 0 < b < L_]):
+            litems.append({"prog": p, "cfg": cfg})
+            lmeta.append((p, cfg))
+    LR = loomrun.run_items(os.path.join(ctx.work, "lim"), litems, jobs=jobs, tag="lim") if litems else []
+    for (p, cfg), r in zip(lmeta, LR):
+        if r["end"] in ("ok", "hang") or r["end"].startswith("abort"):
+            ctx.violation("limit-not-reported", p, {"cfg": cfg, "end": r["end"]}, {"msg": r["msg"][:200]})
+        elif "max_branches" in cfg and r["end"] != "branches":
+            ctx.violation("limit-not-reported", p, {"cfg": cfg, "end": r["end"]}, {"msg": r["msg"][:200]})
+    ctx.cov["limit_crash_runs"] = len(litems)
     ends = {}
     for r in R[:len(progs)]:
         ends[r["end"]] = ends.get(r["end"], 0) + 1
